@@ -444,6 +444,12 @@ def run(ctx) -> None:
     from .common import forwarding_discipline
     ctx.guard(forwarding_discipline, "R08.12", ['recipient', 'enc', 'tag', 'cek', 'aad', 'iv', 'ek', 'value'], 51, "jwe")  # arguments are handed on under their own name (generic routing rule, rules/common.py)
     ctx.guard(r08_9)
+    from .common import every_recipient_tried
+    ctx.guard(every_recipient_tried, "R08.18")  # a multi-recipient JWE of another implementation decrypts with the key of ANY of its recipients
+    from .c20 import r20_1 as _r20_1
+    from ..effects import Effects as _Fx
+    from .common import in_family as _inf
+    ctx.guard_as("R08.17", _r20_1, _Fx(ctx.eng.prog, ctx.eng.cg), {f for f in ctx.eng.prog.all_functions() if _inf(f, "jwe")})  # the segments that are emitted / decrypted are this message's own (no class-level containers)
     from .c04 import r04_4
     ctx.guard_as("R08.10", r04_4)
     from .c20 import r20_2
